@@ -199,6 +199,8 @@ def run_check(mod, tier, seed, jobs=None, replay_confirm=True):
     if pool is not None:
         pool.close()
         pool.join()
+    if os.environ.get("VERIF_DEBUG") and shard_walls:
+        print(f"  DEBUG shard walls: max={max(shard_walls):.1f}s sum={sum(shard_walls):.1f}s n={len(shard_walls)}")
     if errors:
         for e in errors[:3]:
             sys.stderr.write(f"HARNESS-ERROR property={prop} shard={e['shard']}\n{e['error']}\n")
